@@ -52,7 +52,7 @@ class AuthClientDriver:
         shutil.rmtree(self.dir, ignore_errors=True)
 
     def feed(self, line):
-        data = line + b'\r\n'
+        data = line + (b'\r\n' if len(line) < 16384 else b'')        # an endless line has no end
         try:
             if self.rng is not None and len(data) > 2 and self.rng.random() < 0.6:
                 c = self.rng.randrange(1, len(data))
@@ -78,7 +78,8 @@ class AuthClientDriver:
             return {'challenge': b'DATA ' + binascii.hexlify(b'ctx 1 5ea1ed'), 'noid': b'DATA ' + binascii.hexlify(b'ctx 99 5ea1ed'),
                     'garbage': b'DATA zz'}[args[0]]
         if name == 'Unknown':
-            return {'word': b'HELLO there', 'empty': b'', 'nontext': b'\xff\xfeOK 12', 'begin': b'BEGIN'}[args[0]]
+            return {'word': b'HELLO there', 'empty': b'', 'nontext': b'\xff\xfeOK 12', 'begin': b'BEGIN',
+                    'endless': b'OK ' + b'1' * 17000}[args[0]]
         if name == 'AfterClose':
             return b'OK 1234deadbeef' if args[0] == 'ok' else b'REJECTED'
         raise ValueError(name)
@@ -272,7 +273,7 @@ def rand_action(rng):
         return ('Agree', ())
     if r < 0.9:
         return ('Data', (rng.choice(['challenge', 'challenge', 'garbage', 'noid']),))
-    return ('Unknown', (rng.choice(['word', 'empty', 'nontext', 'begin']),))
+    return ('Unknown', (rng.choice(['word', 'empty', 'nontext', 'begin', 'endless']),))
 
 
 def record(rng, unix, ck):
